@@ -60,7 +60,7 @@ func c13Size(r *fw.Rand, mtu int) int {
 	if s > 70000 {
 		s = 70000
 	}
-	if r.Chance(1, 6000) {
+	if r.Chance(1, 40000) {
 		s = r.Pick(65535, 65536, 65537, 66000) // more than 65535 packets at tiny MTUs
 	}
 	return s
